@@ -422,7 +422,8 @@ def h5_run(item, col):
 
 
 # ======================================================================= family: effects
-OBS_VECTORS = [[0.5, 0.2, 0.9, 0.35], [0.0, 1.5, 0.25, 0.25]]
+# the last two make single-agent effects whose mean is exactly 0.0 (a complete kill) at every position
+OBS_VECTORS = [[0.5, 0.2, 0.9, 0.35], [0.0, 1.5, 0.25, 0.25], [0.0, 0.0, 0.7, 0.0], [0.6, 0.0, 0.0, 0.0]]
 
 
 def ref_effects(samples, ids):
@@ -521,7 +522,7 @@ def row_options(arity, alphabet, synergy=False):
 
 def effects_plan(tier):
     items = []
-    nobs = 1 if tier == "quick" else 2
+    nobs = 1 if tier == "quick" else len(OBS_VECTORS)
     specs = [(2, [-1, 0, 1], 3 if tier == "quick" else 4), (3, [-1, 0, 1], 3)]
     if tier == "thorough":
         specs.append((3, [-1, 0], 4))
@@ -675,7 +676,7 @@ def check_synergy(case, col, record=True):
 
 def synergy_plan(tier):
     items = []
-    nobs = 1 if tier == "quick" else 2
+    nobs = len(OBS_VECTORS)
     specs = [([-1, 0, 1], 3 if tier == "quick" else 4)]
     if tier == "thorough":
         specs.append(([-1, 0, 1, 2], 3))
